@@ -89,6 +89,10 @@ def parse_sx(line):
     return item()
 
 
+def dump_sx(x):
+    return x if isinstance(x, str) else '(' + ' '.join(dump_sx(y) for y in x) + ')'
+
+
 def sx_get(x, key):
     """x is a list of [key, value] pairs."""
     for kv in x:
@@ -139,7 +143,7 @@ def build_driver():
         return False, (out + err)[-4000:]
     for f in (ROOT / 'ocaml').glob('*.ml'):
         shutil.copy(f, od / f.name)
-    order = ['model.mli', 'model.ml', 'drv_base.ml'] + sorted(f.name for f in (ROOT / 'ocaml').glob('drv_c*.ml')) + ['driver.ml']
+    order = ['model.mli', 'model.ml', 'drv_base.ml', 'drv_ast.ml'] + sorted(f.name for f in (ROOT / 'ocaml').glob('drv_c*.ml')) + ['driver.ml']
     rc, out, err = run(['ocamlfind', 'ocamlopt', '-w', '-a'] + order + ['-o', 'driver'], cwd=od, timeout=1000)
     if rc != 0:
         return False, (out + err)[-4000:]
